@@ -8,6 +8,8 @@
 (*   after  the same collection read again after the call                  *)
 (*   delim  delimiter character code                                       *)
 (*   raised "" or the exception class name                                 *)
+(*   form   the requested format: "str" or "list" (a field cut out of a     *)
+(*          CTI text is "str"; a BEP's YAML list is "list")                 *)
 (*   kind   "text"  - out is the returned str (or the field text cut out   *)
 (*                    of a written CTI phase / BEP), as character codes    *)
 (*          "elems" - out is the returned list, each element as codes      *)
@@ -23,7 +25,7 @@ TraceLog == ndJsonDeserialize(IOEnv.TRACE_FILE)
 VARIABLES l, st
 
 Clauses(e) ==
-   CASE e.ev = "range" -> Judge(e.ids, e.after, e.delim, e.raised, e.kind, e.out)
+   CASE e.ev = "range" -> Judge(e.ids, e.after, e.delim, e.raised, e.form, e.kind, e.out)
      [] OTHER -> {"UnknownEvent"}
 
 Step(e) == IF st.tid = e.tid THEN [tid |-> e.tid, n |-> st.n + 1] ELSE [tid |-> e.tid, n |-> 1]
